@@ -77,6 +77,18 @@ Fixpoint c03_noise (cfg : config) (fc : fc_state) (h : list block) (t : trace) :
   | _, _ => True
   end.
 
+(* ... and deleting such a block from the history deletes exactly its (empty) entry from the run: the
+   reference state after h1 is unchanged by b  ==>  the run on h1 ++ b :: h2 is the run on h1 ++ h2 with
+   ([], ROk) inserted at b's position *)
+Definition fc_after (cfg : config) (fc : fc_state) (h : list block) : fc_state :=
+  fold_left (fun f b => fc_step (c_first cfg) (c_incl cfg) (c_alltrig cfg) f b) h fc.
+
+Definition c03_noise_deletion (cfg : config) (m : libmode) (h1 : list block) (b : block) (h2 : list block) : Prop :=
+  let fc := fc_after cfg (fc_init m) h1 in
+  fc_step (c_first cfg) (c_incl cfg) (c_alltrig cfg) fc b = fc ->
+  let T := fk_run cfg (fs_init m) (h1 ++ h2) in
+  fk_run cfg (fs_init m) (h1 ++ b :: h2) = firstn (length h1) T ++ ([], ROk) :: skipn (length h1) T.
+
 (* FULL STRENGTH (all configured-LIB modes, moving LIB): stated, not proved in this generality; the
    checker c03_prop evaluates c03_statement's comparison on the implementation's observation of every
    generated history *)
@@ -85,7 +97,22 @@ Definition c03_full : Prop :=
     c03_statement cfg m h /\
     c03_follows cfg (root_lib m (fk_run cfg (fs_init m) h)) (fc_init m) [] None h (fk_run cfg (fs_init m) h) /\
     c03_retention_statement cfg m h /\
-    c03_noise cfg (fc_init m) h (fk_run cfg (fs_init m) h).
+    c03_noise cfg (fc_init m) h (fk_run cfg (fs_init m) h) /\
+    (forall h1 b h2, h = h1 ++ b :: h2 -> c03_noise_deletion cfg m h1 b h2).
+
+(* the reference means what the property says: a block that is new to the stream, not below the LIB
+   (once a tip exists), not the LIB block, linked back to the LIB through received blocks and higher
+   than the previous tip (any height in all-blocks-trigger mode) becomes the tip; a block that fails
+   one of these tests leaves the tip unchanged (exclusive-LIB mode) *)
+Definition c03_reference_meaning : Prop :=
+  forall first alltrig fc b,
+    let fc' := fc_step first false alltrig fc b in
+    let below := (bnum b <? rn (fc_lib fc)) && match fc_tip fc with Some _ => true | None => false end in
+    let is_new := match lookup (bid b) (fc_recv fc) with None => true | Some _ => false end in
+    let higher := alltrig || match fc_tip fc with None => true | Some t => bnum t <? bnum b end in
+    let links := negb (bid b =? ri (fc_lib fc)) &&
+                 links_to_lib (S (length (b :: fc_recv fc))) first (b :: fc_recv fc) (fc_lib fc) b in
+    if negb below && is_new && higher && links then fc_tip fc' = Some b else fc_tip fc' = fc_tip fc.
 
 (* ---------------------------------------------------------------- the part that is proved *)
 
@@ -102,4 +129,5 @@ Definition c03_fixed_lib_statement : Prop :=
     c03_statement cfg (LExcl r0) h /\
     c03_follows cfg (ri r0) (fc_init (LExcl r0)) [] None h t /\
     c03_noise cfg (fc_init (LExcl r0)) h t /\
-    c03_retention_statement cfg (LExcl r0) h.
+    c03_retention_statement cfg (LExcl r0) h /\
+    (forall h1 b h2, h = h1 ++ b :: h2 -> c03_noise_deletion cfg (LExcl r0) h1 b h2).
